@@ -68,6 +68,11 @@ def run(rep, tier, seed):
     t2 = time.time()
     real = corr_optloop.run_real(seed, tier)
     oracle_fail = list(real['failures']) + [dict(f, what='scripted run contradicts the statement of C12') for f in corr['oracle_failures']]
+    # sequences that leave private caches of the Graph stale (calc_chi2 / optimize, then poses edited from outside, then optimize)
+    import oracle_graph
+    ev_s, stale = oracle_graph.stale_cache_sequences(seed, 30 if tier == 'quick' else 600)
+    real['checks'] += ev_s
+    oracle_fail += [dict(f, what=f['law']) for f in stale]
     rep.obligation('direct oracle: statement of C12 on %d real R2/R3/SE2/SE3 graphs (%d checks: report vs calc_chi2 at every state, every split, verbose) '
                    'and on every scripted run' % (real['graphs'], real['checks']), not oracle_fail,
                    json.dumps([{k: f[k] for k in f if k != 'spec'} for f in oracle_fail[:2]], default=str)[:1500])
